@@ -1,0 +1,43 @@
+//go:build verif
+
+package mresults
+
+// C09 (aggregation kernels only): per output group the min / max aggregate is
+// an element of the member values and bounds all of them; group -> 1.
+// Label matching, grouping keys and vector arithmetic are not decided.
+// Checked by /verif/bin/govc.  Comment-only file.
+
+//@ func reduceEntries
+//@   props C09
+//@   requires forall(k, 0, len(entries), !isNaN(entries[k].dpVal))
+//@   ensures [min-bounds] implies((fn == sutils.Min || fn == sutils.BottomK) && result1 == nil, forall(k, 0, len(entries), result0 <= entries[k].dpVal))
+//@   ensures [min-is-member] implies((fn == sutils.Min || fn == sutils.BottomK) && result1 == nil && len(entries) > 0, exists(k, 0, len(entries), result0 == entries[k].dpVal))
+//@   ensures [max-bounds] implies((fn == sutils.Max || fn == sutils.TopK) && result1 == nil, forall(k, 0, len(entries), result0 >= entries[k].dpVal))
+//@   ensures [max-is-member] implies((fn == sutils.Max || fn == sutils.TopK) && result1 == nil && len(entries) > 0, exists(k, 0, len(entries), result0 == entries[k].dpVal))
+//@   ensures [group] implies(fn == sutils.Group, result1 == nil && result0 == 1)
+//@   loop 2:
+//@     invariant -1 <= rangeindex && rangeindex < len(entries)
+//@     invariant forall(k, 0, rangeindex+1, ret <= entries[k].dpVal)
+//@     invariant implies(rangeindex >= 0, exists(k, 0, rangeindex+1, ret == entries[k].dpVal))
+//@   loop 3:
+//@     invariant -1 <= rangeindex && rangeindex < len(entries)
+//@     invariant forall(k, 0, rangeindex+1, ret >= entries[k].dpVal)
+//@     invariant implies(rangeindex >= 0, exists(k, 0, rangeindex+1, ret == entries[k].dpVal))
+//@ end
+
+//@ func reduceRunningEntries
+//@   props C09
+//@   requires forall(k, 0, len(entries), !isNaN(entries[k].runningVal))
+//@   ensures [min-bounds] implies(fn == sutils.Min && result1 == nil, forall(k, 0, len(entries), result0 <= entries[k].runningVal))
+//@   ensures [min-is-member] implies(fn == sutils.Min && result1 == nil && len(entries) > 0, exists(k, 0, len(entries), result0 == entries[k].runningVal))
+//@   ensures [max-bounds] implies(fn == sutils.Max && result1 == nil, forall(k, 0, len(entries), result0 >= entries[k].runningVal))
+//@   ensures [max-is-member] implies(fn == sutils.Max && result1 == nil && len(entries) > 0, exists(k, 0, len(entries), result0 == entries[k].runningVal))
+//@   loop 3:
+//@     invariant -1 <= rangeindex && rangeindex < len(entries)
+//@     invariant forall(k, 0, rangeindex+1, ret <= entries[k].runningVal)
+//@     invariant implies(rangeindex >= 0, exists(k, 0, rangeindex+1, ret == entries[k].runningVal))
+//@   loop 4:
+//@     invariant -1 <= rangeindex && rangeindex < len(entries)
+//@     invariant forall(k, 0, rangeindex+1, ret >= entries[k].runningVal)
+//@     invariant implies(rangeindex >= 0, exists(k, 0, rangeindex+1, ret == entries[k].runningVal))
+//@ end
